@@ -439,11 +439,11 @@ func envStdStruct2() interface{} {
 		N: 7, X: 1.25, S: "other", B: false,
 		L: []int{9, 8, 9, 7, 1}, Ls: []string{"q", "q", "r"},
 		M:  map[string]int{"k1": 10, "k2": 20, "k9": 90},
-		Mi: map[int]string{2: "zwei", 5: "fuenf"},
+		Mi: map[int]string{}, // an EMPTY map (typed from the static Go type)
 		O:  Inner{70, "seventy", []string{"u", "v", "w"}},
 		P:  &WithMaybe{A: 9.5, B: nil, C: strp("cc")},
 		T:  time.Unix(1700000000, 0),
-		Ll: [][]int{{5}, {6, 7}, {8}},
+		Ll: [][]int{{5}, {}, {8}},
 		Lo: []Inner{{3, "c", []string{"x"}}, {4, "d", []string{}}, {5, "e", []string{"y", "z"}}},
 		Mo: map[string]Inner{"u": {11, "aa", []string{"q1"}}, "w": {12, "bb", []string{}}},
 	}
